@@ -178,12 +178,12 @@ K = {"T1": ["T1", False], "T2": ["T2", False], "T3": ["T3", False], "T1u": ["T1"
 
 
 def lines_gen(L, D, E, kinds, unit="  ", base=0, free=(), ws=(), blank=True, suffix="", simulate=None, code_a="", code_b="",
-              mb=False, max_code=99, empty_default=False, pairs=False, preamble=0, inline=False, pair_kind="R", eol="\n"):
+              mb=False, max_code=99, empty_default=False, pairs=False, preamble=0, inline=False, pair_kind="R", eol="\n", tag_sep=" "):
     from vlib import TlaSet
     g = {"base": "GenLines", "constraint": "Feasible",
          "consts": {"L": L, "D": D, "E": E, "Kinds": TlaSet([K[k] for k in kinds]), "Unit": Chars(unit), "Base": base,
                     "FreeInd": TlaSet(list(free)), "WsLens": TlaSet(list(ws)), "Blank": blank, "Suffix": Chars(suffix), "CodeA": Chars(code_a), "CodeB": Chars(code_b), "MbCode": mb, "MaxCode": max_code, "EmptyDefault": empty_default, "PairLines": pairs, "Preamble": preamble,
-                    "InlineTags": inline, "PairKind": K[pair_kind], "EOL": Chars(eol),
+                    "InlineTags": inline, "PairKind": K[pair_kind], "EOL": Chars(eol), "TagSep": Chars(tag_sep),
                     "PastTo": Chars(PAST), "FutureTo": Chars(FUTURE),
                     "Tos": [Chars(t) for t in TOS], "Names": [Chars(n) for n in MNAMES]}}
     if simulate:
@@ -221,6 +221,7 @@ def block_jobs(ctx, invariants, ops, lite=False):
                 lines_gen(5, 2, 2, ["T", "F"], unit="    ", base=0, suffix="é"),
                 lines_gen(5 if lite else 6, 2, 2, ["R", "P"], base=1, ws=(2,), mb=True),       # lines of multi-byte characters only
                 lines_gen(5, 2, 2, ["R", "P"], unit=" \t", base=1, ws=(2,)),                    # mixed space / tab indentation
+                lines_gen(5 if lite else 6, 2, 2, ["R", "T"], base=1, blank=True, tag_sep="\n     "),   # opening tags spanning two lines
                 lines_gen(4, 1, 1, ["R"], unit="\t ", base=2, blank=True),
                 lines_gen(14, 3, 5, ["R", "P", "S", "U", "T", "F"], ws=(2,), base=ctx.seed % 2, simulate=(15 if lite else 80, 14)),
                 dict(lines_gen(5 - d // 2, 2, 2, ["R", "P", "T"], ws=(2,)), cfg=html)]
@@ -234,6 +235,8 @@ def block_jobs(ctx, invariants, ops, lite=False):
                           lines_gen(7, 2, 2, ["T", "F"], unit="    ", base=0, suffix="é")]),
         ("block-sim", [lines_gen(14, 3, 5, ["R", "P", "S", "U", "T", "F"], ws=(2,), base=ctx.seed % 2, simulate=(20000, 14))]),
         ("block-html", [dict(lines_gen(7, 2, 2, ["R", "P", "T"], ws=(2,)), cfg=html)]),
+        ("block-two-line-tags", [lines_gen(7, 2, 2, ["R", "P", "T"], base=1, blank=True, tag_sep="\n     "),
+                                 dict(lines_gen(6, 2, 2, ["R", "P"], blank=True, tag_sep="\n * "), cfg={"ds": "/* <", "de": "> */"})]),
         ("block-mixed-indent", [lines_gen(7, 2, 2, ["R", "P"], unit=" \t", base=1, ws=(2,)), lines_gen(6, 1, 1, ["R"], unit="\t ", base=2, blank=True),
                                 lines_gen(6, 2, 2, ["R", "P"], unit="  \t", base=1, blank=True)]),
     ]
@@ -255,6 +258,9 @@ def unwrap_jobs(ctx, invariants, ops, lite=False):
                 lines_gen(6, 1, 1, ["Tu"], unit="\t", free=(0, 2), blank=False, suffix="あ"),
                 lines_gen(7 - d // 2, 1, 1, ["Ru"], blank=False, pairs=True, max_code=4),          # touching removed inline regions
                 lines_gen(7 if not lite else 5, 2, 2, ["Ru", "R"], blank=False, inline=True, max_code=3),   # tags sharing lines with code
+                dict(lines_gen(6, 2, 2, ["Ru", "R"], blank=False, free=(1,)), cfg={"ds": "<!-- <", "de": "> -->"}),
+                dict(lines_gen(6, 1, 1, ["Ru"], blank=True, free=(1,), suffix="あ"), cfg={"ds": "《", "de": "》"}),
+                lines_gen(6, 2, 2, ["Ru", "P"], blank=False, base=1, tag_sep="\n     "),                # opening tags spanning two lines
                 lines_gen(6, 1, 1, ["Ru"], free=(0, 2), blank=False, base=1, code_b=" = 1"),       # interior blanks at the tag column
                 lines_gen(6, 1, 1, ["Ru"], unit="\t", free=(0, 2), blank=False, base=1, code_a=" "),
                 lines_gen(16, 3, 4, ["Ru", "R", "P", "Pu", "S"], free=(0, 1, 2), ws=(2,), simulate=(15 if lite else 80, 16))]
@@ -267,6 +273,10 @@ def unwrap_jobs(ctx, invariants, ops, lite=False):
                            lines_gen(13, 2, 3, ["Ru", "R"], blank=False, max_code=6), lines_gen(11, 3, 3, ["Ru", "R", "P"], blank=False, base=1, max_code=5),
                            lines_gen(14, 3, 3, ["Ru"], blank=False)]),
         ("unwrap-tab", [lines_gen(8, 1, 1, ["Tu"], unit="\t", free=(0, 1, 2), blank=False, suffix="あ")]),
+        ("unwrap-other-delims", [dict(lines_gen(8, 2, 2, ["Ru", "R", "P"], blank=False, free=(1,)), cfg={"ds": "<!-- <", "de": "> -->"}),
+                                 dict(lines_gen(7, 1, 1, ["Ru"], blank=True, free=(0, 1, 2), suffix="あ"), cfg={"ds": "《", "de": "》"}),
+                                 dict(lines_gen(7, 2, 2, ["Ru", "R"], blank=False), cfg={"ds": "%%", "de": "%%"}),
+                                 lines_gen(8, 2, 2, ["Ru", "P", "R"], blank=False, base=1, tag_sep="\n     ")]),
         ("unwrap-pairs", [lines_gen(9, 2, 2, ["Ru", "P"], blank=False, pairs=True, max_code=5)]),
         ("unwrap-inline-tags", [lines_gen(8, 2, 3, ["Ru", "R", "P"], blank=False, inline=True, max_code=4)]),
         ("unwrap-interior-blanks", [lines_gen(8, 1, 1, ["Ru"], free=(0, 1, 2), blank=False, base=1, code_b=" = 1"),
